@@ -1,2 +1,54 @@
-(* C15 *)
-From Grex Require Import Base.Str.
+(* C15 — syntax highlighting only adds colour codes: removing the SGR sequences from the
+   highlighted output yields exactly the plain output.
+
+   strip_sgr isd models the documented way of removing the colour codes (the regex
+   ESC \[ (?: \d+ ; \d+ | 0 ) m of the source, with isd the engine's \d); digit_ok isd is all
+   that is needed of \d: it contains 0-9 and neither ';' nor 'm'. *)
+From Grex Require Import Base.Str Base.Ranges Model.Config Model.Cluster Model.Dfa Model.Expr
+  Model.Print Model.Pipeline.
+From Grex Require Import Proofs.ColourStrip Proofs.CcSorted Proofs.PropsGlue.
+From GrexGen Require Import OracleTables.
+
+(* the expression produced by the pipeline (any settings c0, any clusters), printed with any
+   settings c: highlighted output, stripped = plain output.  Unconditional: the class members
+   of pipeline expressions are strictly increasing (C15_cc_sorted), which is what verbose mode
+   needs *)
+Theorem C15_pipeline : forall isd c c0 cls sc e,
+  digit_ok isd ->
+  Pipeline.final_expr c0 cls sc = Some e ->
+  strip_sgr isd (regexp_str isd (with_colour c true) e) = regexp_str isd (with_colour c false) e.
+Proof. exact strip_pipeline. Qed.
+
+Theorem C15_cc_sorted : forall c cls sc e,
+  Pipeline.final_expr c cls sc = Some e -> expr_wf e.
+Proof. exact final_expr_cc_sorted. Qed.
+
+(* the engine's \d (dumped table) satisfies digit_ok *)
+Theorem C15_digit_ok : digit_ok (mem engine_d).
+Proof. exact digit_ok_engine. Qed.
+
+(* arbitrary expressions: every expression when not verbose; in verbose mode the expressions
+   whose class members are strictly increasing (false otherwise:
+   ColourStrip.cex_verbose_unsorted) *)
+Theorem C15_any_expr : forall isd c e, digit_ok isd ->
+  (f_verbose c = true -> expr_wf e) ->
+  strip_sgr isd (regexp_str isd (with_colour c true) e) = regexp_str isd (with_colour c false) e.
+Proof. exact strip_regexp_str. Qed.
+
+(* the expression printer alone: every expression, every setting *)
+Theorem C15_e_str : forall isd c e, digit_ok isd ->
+  strip_sgr isd (e_str (with_colour c true) e) = e_str (with_colour c false) e.
+Proof. exact strip_e_str. Qed.
+
+(* the plain output contains nothing that the stripper removes, when no literal and no class
+   of the expression contains ESC (false otherwise: ColourStrip.cex_plain_no_sgr) *)
+Theorem C15_plain_no_sgr : forall isd c e, esc_free e ->
+  strip_sgr isd (regexp_str isd (with_colour c false) e) = regexp_str isd (with_colour c false) e.
+Proof. exact plain_no_sgr. Qed.
+
+Print Assumptions C15_pipeline.
+Print Assumptions C15_cc_sorted.
+Print Assumptions C15_digit_ok.
+Print Assumptions C15_any_expr.
+Print Assumptions C15_e_str.
+Print Assumptions C15_plain_no_sgr.
